@@ -543,15 +543,14 @@ func (st *stats) noteEdges(c *ConfigSpec, reasons, und []string, revOK, accepted
 // configuration, so the revision plays no part). They must give one verdict;
 // a refusal has no effect, an acceptance makes spec the current configuration
 // and, for Load, announces every target once with Add. It returns the verdict.
-func entryPoints(spec *ConfigSpec, repr int, desc string) (accepted bool, err error) {
+//
+// reg is the consumer of the scenario (consumer.go): the same subset of
+// callbacks is registered with the Configs made here, and what the first Load
+// announces is judged by the projection oracle (all targets as Add if Add is
+// registered, nothing otherwise).
+func entryPoints(spec *ConfigSpec, repr int, desc string, reg consumer) (accepted bool, err error) {
 	var calls []call
-	h := target.Handler{
-		Add: func(u target.Update) { calls = append(calls, call{"add", u.Name, cloneT(u.Target), cloneR(u.Request)}) },
-		Update: func(u target.Update) {
-			calls = append(calls, call{"update", u.Name, cloneT(u.Target), cloneR(u.Request)})
-		},
-		Delete: func(name string) { calls = append(calls, call{"delete", name, nil, nil}) },
-	}
+	h := reg.handler(func(c call) { calls = append(calls, c) })
 	want := spec.build()
 
 	verr := target.Validate(spec.buildRepr(repr))
@@ -598,6 +597,11 @@ func entryPoints(spec *ConfigSpec, repr int, desc string) (accepted bool, err er
 			return accepted, vio("handler-kind", "%s: first Load of a fresh Config must announce every target once with Add; calls %s", desc, callList(calls))
 		}
 		set[cl.name] = entry{cl.tgt, cl.req}
+	}
+	if !reg.add {
+		// (a call of a callback that is not registered cannot be recorded; the
+		// loop above has refused everything that is not an Add)
+		return accepted, nil
 	}
 	if d := diffViews(set, view(cur), spec.nilRequestTargets()); d != "" {
 		return accepted, vio("replay-mismatch", "%s: first Load of a fresh Config: replaying %s does not yield Current(): %s", desc, callList(calls), d)
